@@ -26,7 +26,7 @@ def classes():
         except Exception:
             continue
         out.append((name, "bulk", (0, 0, 0), 0, True))
-        millers = [(0, 0, 1)] if st in ("hcp", "wurtzite") else gens.MILLERS
+        millers = gens.MILLERS
         for m in millers:
             for L in (3, 4):
                 for pz in (False, True):
@@ -83,6 +83,9 @@ if __name__ == "__main__":
     if only:
         want = set(only.split(","))
         cl = [c for c in cl if "%s:%s:%s:L%d:%s" % (c[0], c[1], "".join(map(str, c[2])) if c[1] == "slab" else "-", c[3], "T" if c[4] else "F") in want]
+    if os.environ.get("SURVEY_STRUCTS"):
+        want = set(os.environ["SURVEY_STRUCTS"].split(","))
+        cl = [c for c in cl if gens.conv_cell(c[0])[1] in want]
     if os.environ.get("SURVEY_ELEMENTS_SLABS"):
         el = dict(gens.ELEMS)
         cl = [c for c in cl if c[0] in el and c[1] == "slab"]
